@@ -339,6 +339,16 @@ func Fees(s *sim.Sim, r *rng.R, n int) Result {
 			A = big.NewInt(int64(-r.Intn(3)))
 		}
 		es, shape := genFeeList(r, A)
+		if r.Chance(7) {
+			// small amounts under basis points that add up to more than 100 %: each entry is floored on its own, so
+			// the fees can still stay below the amount (A=3 with 5000+5001: 1+1, 1 forwarded)
+			A = big.NewInt(int64(1 + r.Intn(rng.Pick(r, []int{5, 20, 60, 5000}))))
+			es, shape = nil, "bps-above-100%"
+			for k := 2 + r.Intn(4); k > 0; k-- {
+				es = append(es, feeEntry{recipient: feeRecipients()[r.Intn(len(feeRecipients()))].Bech, kind: "bps",
+					bps: rng.Pick(r, []uint32{5000, 5001, 4000, 9999, 3334, 2, 2501, 10000})})
+			}
+		}
 		denom := rng.Pick(r, []string{sim.USDC, sim.USDC, "ufoo"})
 		key := A.String() + "|" + denom
 		var infos []*actiontypes.FeeInfo
